@@ -70,6 +70,9 @@ type startSpec struct {
 	Env  map[string]string `json:"env,omitempty"`  // NUTS_* (without the ports / data dir, which the starter owns)
 	File string            `json:"file,omitempty"` // content of the YAML config file
 	Cmd  string            `json:"cmd,omitempty"`  // sub-command, default "server"
+	// Unset lists environment names that the starter must NOT set itself (the config file decides them instead).
+	// Placeholders in File/Env/Args: {DIR} data directory parent, {FREEADDR} a free loopback address, {INTERNAL} the internal HTTP address.
+	Unset []string `json:"unset,omitempty"`
 }
 
 type startResult struct {
@@ -182,7 +185,15 @@ func runNodeOnce(t testing.TB, spec startSpec, up func(sys *core.System, interna
 	clearNutsEnv()
 	internal, public, grpcAddr, nats := freeAddr(), freeAddr(), freeAddr(), freeAddr()
 	cfgFile := filepath.Join(dir, "nuts.yaml")
-	if err := os.WriteFile(cfgFile, []byte(spec.File), 0o600); err != nil {
+	fill := func(v string) string {
+		v = strings.ReplaceAll(v, "{DIR}", dir)
+		v = strings.ReplaceAll(v, "{INTERNAL}", internal)
+		for strings.Contains(v, "{FREEADDR}") {
+			v = strings.Replace(v, "{FREEADDR}", freeAddr(), 1)
+		}
+		return v
+	}
+	if err := os.WriteFile(cfgFile, []byte(fill(spec.File)), 0o600); err != nil {
 		t.Fatal(err)
 	}
 	env := map[string]string{
@@ -195,8 +206,11 @@ func runNodeOnce(t testing.TB, spec startSpec, up func(sys *core.System, interna
 		"NUTS_EVENTS_NATS_HOSTNAME":  "127.0.0.1",
 		"NUTS_VERBOSITY":             "warn",
 	}
+	for _, k := range spec.Unset {
+		delete(env, k)
+	}
 	for k, v := range spec.Env {
-		env[k] = strings.ReplaceAll(v, "{DIR}", dir)
+		env[k] = fill(v)
 	}
 	for k, v := range env {
 		os.Setenv(k, v)
